@@ -597,162 +597,158 @@ def _run(case, ctx, env, classes, info):
         def fmtlist(xs):
             return [_norm(vk, x) for x in xs]
 
-        try:
-            if op in TERMINALS:
-                # a None scalar value is indistinguishable from "no row" for methods that return None on no row
-                accepted = [("ret", None) if a == ("ret", ("scalar", None)) else a for a in m.only_one(view, op)]
-                res = _call(getattr(cur, op), allow_te)
-                if was_state != OPEN:
-                    expect_no_rows(step, op, res, ("NoResultFound",))
-                else:
-                    if res[0] == "ret" and res[1] is not None:
-                        if op.startswith("scalar"):
-                            res = ("ret", ("scalar", res[1]))
-                        else:
-                            res = ("ret", _norm(vk, res[1]))
-                    if res not in accepted:
-                        if len(accepted) > 1:
-                            classes.add("terminal-ambiguous")
-                        raise vio(f"{op}/value", f"step {step} {op}(): got {res!r}, model accepts {accepted!r} (pos {m.pos} of {len(m.rows)})", observed=repr(res), expected=repr(accepted))
+        if op in TERMINALS:
+            # a None scalar value is indistinguishable from "no row" for methods that return None on no row
+            accepted = [("ret", None) if a == ("ret", ("scalar", None)) else a for a in m.only_one(view, op)]
+            res = _call(getattr(cur, op), allow_te)
+            if was_state != OPEN:
+                expect_no_rows(step, op, res, ("NoResultFound",))
+            else:
+                if res[0] == "ret" and res[1] is not None:
+                    if op.startswith("scalar"):
+                        res = ("ret", ("scalar", res[1]))
+                    else:
+                        res = ("ret", _norm(vk, res[1]))
+                if res not in accepted:
                     if len(accepted) > 1:
                         classes.add("terminal-ambiguous")
-                    if res[0] == "ret" and res[1] is not None:
-                        info["methods"].add(op)
-                    if merged_live and not pinned:
-                        ctx.exclude("MergedResult after a terminal method (known finding: does not close)")
-                        raise _Stop()
-                    m.state = TERMINATED
-                continue
+                    raise vio(f"{op}/value", f"step {step} {op}(): got {res!r}, model accepts {accepted!r} (pos {m.pos} of {len(m.rows)})", observed=repr(res), expected=repr(accepted))
+                if len(accepted) > 1:
+                    classes.add("terminal-ambiguous")
+                if res[0] == "ret" and res[1] is not None:
+                    info["methods"].add(op)
+                if merged_live and not pinned:
+                    ctx.exclude("MergedResult after a terminal method (known finding: does not close)")
+                    raise _Stop()
+                m.state = TERMINATED
+            continue
 
-            if was_state != OPEN:
-                if op == "fetchone":
-                    res = _call(cur.fetchone, allow_te)
-                elif op == "next":
-                    res = _call(lambda: next(cur, _NOROW), allow_te)
-                elif op == "iter":
-                    res = _call(lambda: list(cur), allow_te)
-                elif op == "fetchmany":
-                    res = _call(lambda: list(cur.fetchmany(opd[1])), allow_te)
-                elif op in ("all", "fetchall"):
-                    res = _call(lambda: list(getattr(cur, op)()), allow_te)
-                elif op == "partitions":
-                    res = _call(lambda: list(cur.partitions(opd[1])), allow_te)
+        if was_state != OPEN:
+            if op == "fetchone":
+                res = _call(cur.fetchone, allow_te)
+            elif op == "next":
+                res = _call(lambda: next(cur, _NOROW), allow_te)
+            elif op == "iter":
+                res = _call(lambda: list(cur), allow_te)
+            elif op == "fetchmany":
+                res = _call(lambda: list(cur.fetchmany(opd[1])), allow_te)
+            elif op in ("all", "fetchall"):
+                res = _call(lambda: list(getattr(cur, op)()), allow_te)
+            elif op == "partitions":
+                res = _call(lambda: list(cur.partitions(opd[1])), allow_te)
+            else:
+                raise HarnessError(op)
+            expect_no_rows(step, op, res, ())
+            continue
+
+        if allow_te and m.pos < len(m.rows):
+            # unique() without strategy hashes the next row, which holds a list: TypeError is the documented outcome
+            classes.add("unique-unhashable-typeerror")
+            fn = {
+                "fetchone": lambda: cur.fetchone(),
+                "next": lambda: _next(cur),
+                "iter": lambda: [_next(iter(cur))],
+                "fetchmany": lambda: cur.fetchmany(opd[1]),
+                "all": lambda: cur.all(),
+                "fetchall": lambda: cur.fetchall(),
+                "partitions": lambda: next(cur.partitions(opd[1]), _NOROW),
+            }[op]
+            res = _call(fn, True)
+            if res != ("exc", "TypeError"):
+                raise vio("unique/unhashable-no-typeerror", f"step {step} {op}: unique() without strategy over a list value gave {res!r}, TypeError expected", observed=repr(res), expected="TypeError")
+            raise _Stop()
+        if op in ("fetchone", "next"):
+            exp = m.deliver(view, 1)
+            if op == "fetchone":
+                res = _call(cur.fetchone, allow_te)
+                norow = res[0] == "ret" and res[1] is None
+            else:
+                res = _call(lambda: _next(cur), allow_te)
+                norow = res[0] == "ret" and res[1] is _NOROW
+            got = res if res[0] != "ret" else ([] if norow else fmtlist([res[1]]))
+            _cmp(vio, step, op, got, exp, m)
+        elif op == "iter":
+            k = opd[1]
+            exp = m.deliver(view, k)
+
+            def take():
+                it = iter(cur)
+                out = []
+                for _ in range(k):
+                    x = next(it, _NOROW)
+                    if x is _NOROW:
+                        break
+                    out.append(x)
+                return out
+
+            res = _call(take, allow_te)
+            got = fmtlist(res[1]) if res[0] == "ret" else res
+            _cmp(vio, step, op, got, exp, m)
+        elif op == "fetchmany":
+            n = opd[1] if opd[1] is not None else m.yield_per
+            if n is None:
+                rest = m.peek_remaining(view)
+                res = _call(lambda: list(cur.fetchmany()), allow_te)
+                got = fmtlist(res[1]) if res[0] == "ret" else res
+                _prefix(vio, step, op, got, rest, m, view)
+                classes.add("fetchmany-default-size")
+            else:
+                exp = m.deliver(view, n)
+                res = _call(lambda: list(cur.fetchmany(opd[1])), allow_te)
+                got = fmtlist(res[1]) if res[0] == "ret" else res
+                _cmp(vio, step, op, got, exp, m)
+        elif op in ("all", "fetchall"):
+            exp = m.deliver(view, None)
+            res = _call(lambda: list(getattr(cur, op)()), allow_te)
+            got = fmtlist(res[1]) if res[0] == "ret" else res
+            _cmp(vio, step, op, got, exp, m)
+        elif op == "partitions":
+            n = opd[1] if opd[1] is not None else m.yield_per
+            take_k = opd[2]
+
+            def parts():
+                g = cur.partitions(opd[1])
+                out = []
+                for _ in range(take_k):
+                    x = next(g, _NOROW)
+                    if x is _NOROW:
+                        break
+                    out.append(list(x))
+                return out
+
+            res = _call(parts, allow_te)
+            if res[0] != "ret":
+                raise vio(f"{op}/exception", f"step {step} partitions({opd[1]}): raised {res[1]}", observed=res[1])
+            gotparts = [fmtlist(p) for p in res[1]]
+            got = [x for p in gotparts for x in p]
+            if any(len(p) == 0 for p in gotparts):
+                raise vio("partitions/empty-partition", f"step {step}: partitions() yielded an empty list", observed=repr(gotparts))
+            if n is None:
+                flat = [x for p in gotparts for x in p]
+                rest = m.peek_remaining(view)
+                if len(gotparts) < take_k:
+                    # generator ended: everything must have been delivered
+                    if flat != rest:
+                        raise vio("partitions/content", f"step {step} partitions(None): {flat!r} != remaining {rest!r}", observed=repr(flat), expected=repr(rest))
+                    m.deliver(view, None)
                 else:
-                    raise HarnessError(op)
-                expect_no_rows(step, op, res, ())
-                continue
-
-            if allow_te and m.pos < len(m.rows):
-                # unique() without strategy hashes the next row, which holds a list: TypeError is the documented outcome
-                classes.add("unique-unhashable-typeerror")
-                fn = {
-                    "fetchone": lambda: cur.fetchone(),
-                    "next": lambda: _next(cur),
-                    "iter": lambda: [_next(iter(cur))],
-                    "fetchmany": lambda: cur.fetchmany(opd[1]),
-                    "all": lambda: cur.all(),
-                    "fetchall": lambda: cur.fetchall(),
-                    "partitions": lambda: next(cur.partitions(opd[1]), _NOROW),
-                }[op]
-                res = _call(fn, True)
-                if res != ("exc", "TypeError"):
-                    raise vio("unique/unhashable-no-typeerror", f"step {step} {op}: unique() without strategy over a list value gave {res!r}, TypeError expected", observed=repr(res), expected="TypeError")
-                raise _Stop()
-            if True:
-                if op in ("fetchone", "next"):
-                    exp = m.deliver(view, 1)
-                    if op == "fetchone":
-                        res = _call(cur.fetchone, allow_te)
-                        norow = res[0] == "ret" and res[1] is None
-                    else:
-                        res = _call(lambda: _next(cur), allow_te)
-                        norow = res[0] == "ret" and res[1] is _NOROW
-                    got = res if res[0] != "ret" else ([] if norow else fmtlist([res[1]]))
-                    _cmp(vio, step, op, got, exp, m)
-                elif op == "iter":
-                    k = opd[1]
-                    exp = m.deliver(view, k)
-
-                    def take():
-                        it = iter(cur)
-                        out = []
-                        for _ in range(k):
-                            x = next(it, _NOROW)
-                            if x is _NOROW:
-                                break
-                            out.append(x)
-                        return out
-
-                    res = _call(take, allow_te)
-                    got = fmtlist(res[1]) if res[0] == "ret" else res
-                    _cmp(vio, step, op, got, exp, m)
-                elif op == "fetchmany":
-                    n = opd[1] if opd[1] is not None else m.yield_per
-                    if n is None:
-                        rest = m.peek_remaining(view)
-                        res = _call(lambda: list(cur.fetchmany()), allow_te)
-                        got = fmtlist(res[1]) if res[0] == "ret" else res
-                        _prefix(vio, step, op, got, rest, m, view)
-                        classes.add("fetchmany-default-size")
-                    else:
-                        exp = m.deliver(view, n)
-                        res = _call(lambda: list(cur.fetchmany(opd[1])), allow_te)
-                        got = fmtlist(res[1]) if res[0] == "ret" else res
-                        _cmp(vio, step, op, got, exp, m)
-                elif op in ("all", "fetchall"):
-                    exp = m.deliver(view, None)
-                    res = _call(lambda: list(getattr(cur, op)()), allow_te)
-                    got = fmtlist(res[1]) if res[0] == "ret" else res
-                    _cmp(vio, step, op, got, exp, m)
-                elif op == "partitions":
-                    n = opd[1] if opd[1] is not None else m.yield_per
-                    take_k = opd[2]
-
-                    def parts():
-                        g = cur.partitions(opd[1])
-                        out = []
-                        for _ in range(take_k):
-                            x = next(g, _NOROW)
-                            if x is _NOROW:
-                                break
-                            out.append(list(x))
-                        return out
-
-                    res = _call(parts, allow_te)
-                    if res[0] != "ret":
-                        raise vio(f"{op}/exception", f"step {step} partitions({opd[1]}): raised {res[1]}", observed=res[1])
-                    gotparts = [fmtlist(p) for p in res[1]]
-                    got = [x for p in gotparts for x in p]
-                    if any(len(p) == 0 for p in gotparts):
-                        raise vio("partitions/empty-partition", f"step {step}: partitions() yielded an empty list", observed=repr(gotparts))
-                    if n is None:
-                        flat = [x for p in gotparts for x in p]
-                        rest = m.peek_remaining(view)
-                        if len(gotparts) < take_k:
-                            # generator ended: everything must have been delivered
-                            if flat != rest:
-                                raise vio("partitions/content", f"step {step} partitions(None): {flat!r} != remaining {rest!r}", observed=repr(flat), expected=repr(rest))
-                            m.deliver(view, None)
-                        else:
-                            _prefix(vio, step, op, flat, rest, m, view)
-                        classes.add("fetchmany-default-size")
-                    else:
-                        for pi in range(take_k):
-                            exp = m.deliver(view, n)
-                            gp = gotparts[pi] if pi < len(gotparts) else []
-                            _cmp(vio, step, f"partitions[{pi}]", gp, exp, m)
-                            if not exp:
-                                break
-                        if len(gotparts) > pi + 1:
-                            raise vio("partitions/extra", f"step {step}: more partitions than the model", observed=repr(gotparts))
-                else:
-                    raise HarnessError(op)
-                if res[0] == "ret" and got and not isinstance(got, tuple):
-                    info["methods"].add("fetchall" if op == "all" else op)
-                if m.state == EXHAUSTED and was_state == OPEN:
-                    classes.add("exhausted-by:" + op)
-        finally:
-            pass
+                    _prefix(vio, step, op, flat, rest, m, view)
+                classes.add("fetchmany-default-size")
+            else:
+                for pi in range(take_k):
+                    exp = m.deliver(view, n)
+                    gp = gotparts[pi] if pi < len(gotparts) else []
+                    _cmp(vio, step, f"partitions[{pi}]", gp, exp, m)
+                    if not exp:
+                        break
+                if len(gotparts) > pi + 1:
+                    raise vio("partitions/extra", f"step {step}: more partitions than the model", observed=repr(gotparts))
+        else:
+            raise HarnessError(op)
+        if res[0] == "ret" and got and not isinstance(got, tuple):
+            info["methods"].add("fetchall" if op == "all" else op)
+        if m.state == EXHAUSTED and was_state == OPEN:
+            classes.add("exhausted-by:" + op)
 
         if not explicit_closed and m.state in (OPEN, EXHAUSTED) and not merged_live:
             if R.closed is not False:
@@ -916,5 +912,5 @@ def _programs(draw):
 
 def subs(tier):
     return [
-        Generated("programs", check_prog, strategy=_programs(), quick=8000, thorough=80000),
+        Generated("programs", check_prog, strategy=_programs(), quick=4000, thorough=80000),
     ]
